@@ -24,7 +24,7 @@ func (m *Manager) SyncLoop(ctx context.Context, errCh chan<- error) {
 
 	// caches loaded from disk may already hold both parts of the next block (and mark them as seen)
 	if err := m.trySyncNextBlock(ctx, m.daHeight.Load()); err != nil {
-		errCh <- fmt.Errorf("failed to sync next block: %w", err)
+		sendError(ctx, errCh, fmt.Errorf("failed to sync next block: %w", err))
 		return
 	}
 
@@ -66,7 +66,7 @@ func (m *Manager) SyncLoop(ctx context.Context, errCh chan<- error) {
 			m.handleEmptyDataHash(ctx, &header.Header)
 
 			if err = m.trySyncNextBlock(ctx, daHeight); err != nil {
-				errCh <- fmt.Errorf("failed to sync next block: %w", err)
+				sendError(ctx, errCh, fmt.Errorf("failed to sync next block: %w", err))
 				return
 			}
 
@@ -107,7 +107,7 @@ func (m *Manager) SyncLoop(ctx context.Context, errCh chan<- error) {
 
 			err = m.trySyncNextBlock(ctx, daHeight)
 			if err != nil {
-				errCh <- fmt.Errorf("failed to sync next block: %w", err)
+				sendError(ctx, errCh, fmt.Errorf("failed to sync next block: %w", err))
 				return
 			}
 			m.dataCache.SetSeen(dataHash)
